@@ -8,7 +8,7 @@ class C14(SCheck):
     prop = "C14"
     level = "exploration"
     default_seed = 14014
-    N = {"quick": 250, "thorough": 8000}
+    N = {"quick": 400, "thorough": 8000}
     K = {"quick": 3, "thorough": 4}
     technique = "deterministic simulation: seeded schedules (umask, mknod, mkdir of different threads interleaved), one injected errno at mknod/unlink calls, snapshot oracle (node type, rdev, mode) + supervisor trace (no open/read of a special source)"
     rule = ("case = FIFOs / sockets / character devices with random (major, minor) and modes, as sole source or inside a tree, umask in {0,022}, "
